@@ -140,8 +140,8 @@ class CrossBackend(Bounded):
             for i in range(3):
                 w('lib/f%d.c' % i, 'int f%d(void) { return %d; }\n' % (i, i))
                 w('include/d%d/h%d.h' % (i, i), '')
-            for f in ('s.c', 'a.c', 'template.c'):
-                w(f, 'int fn_%s(void) { return 0; }\n' % f[0])
+            for f in ('s.c', 's2.c', 's3.c', 'a.c', 'template.c'):
+                w(f, 'int fn_%s(void) { return 0; }\n' % f.replace('.', '_'))
             w('main.c', 'int main(void) { return 0; }\n')
             w('README', '')
             w('data/in put.txt', 'x')
